@@ -12,7 +12,7 @@ CASE_TYPE = "bcase"
 CORR = "corr"
 SPEC = "spec_c08"
 SHARD = 4
-RULE = ('random bridge histories with restarts and reorgs followed by fresh deposits, a directed history of equal deposits on positions of the same parity, two directed histories whose reorganised deposit repeats content lying under surviving roots; 4 cases run concurrently in one process (own database each), as the syncers of a node do; at the end EVERY recorded root x EVERY covered index is queried (GetProof) and verified with the real CalculateRoot and, independently, with the Gallina Keccak; non-trivial = a (root, index) pair with index < root index (historical root or interior leaf); distinct = distinct (case, root, index)')
+RULE = ('random bridge histories with restarts and reorgs followed by fresh deposits, a directed history of equal deposits on positions of the same parity, two directed histories whose reorganised deposit repeats content lying under surviving roots; 4 cases run concurrently in one process (own database each), as the syncers of a node do; a second part serves and re-verifies the proofs of the L1 info tree and of the rollup exit tree (updatable tree) through the real l1infotreesync processor on the L1 histories of the C11 check; at the end EVERY recorded root x EVERY covered index is queried (GetProof) and verified with the real CalculateRoot and, independently, with the Gallina Keccak; non-trivial = a (root, index) pair with index < root index (historical root or interior leaf); distinct = distinct (case, root, index)')
 ASSUMPTIONS = ["deposit counts on chain are consecutive from 0 (the contract guarantees it)",
                "Keccak-256 modelled as an injective node function in the theorems that read the stored nodes (restart)",
                "the EVM/Solidity side is represented by a hand transcription of DepositContractBase (Model/Contracts.v)"]
@@ -35,6 +35,9 @@ def finding_key(o):
 def extra_checks(chk):
     # proofs served by the real aggkit tree are handed to the deployed bridge contract's verifyMerkleProof / calculateRoot
     evm_common.run_evm_part(chk)
+    # the other two trees the node serves proofs from (L1 info tree, rollup exit tree = the updatable tree), through the real l1infotreesync
+    import l1info_common
+    l1info_common.run_c08_part(chk)
 
 
 LEVEL_TEXT = ('Kernel-checked for all trees: from well-formedness of the node table alone, whenever the path lookups succeed, CalculateRoot(leaf reached, siblings) = root (walk_calc); with the closed-store invariant (maintained by appends, insert-ignore) every covered index of every recorded version yields the true leaf and a verifying proof (proof_verifies); for the updatable tree sverify covers every position of every closed version; C08_contract_accepts_served_proof: a deposit contract (Solidity transcription) that received the same first k leaves accepts the served proof of every j < k against its own root, in every reachable store state. Per run the proofs of the real aggkit tree are also handed to the deployed bridge bytecode (verifyMerkleProof / calculateRoot, served and tampered).')
